@@ -154,6 +154,17 @@ def h_shooting(h):
     vsh = h.real("front_v", 0.001, 0.99, default=0.1)      # fluid velocity at the front (centre frame)
     xsh = h.real("front_xi", 0.01, 0.999, default=0.62)
     wsh = h.real("front_w", 0.01, 1e3, default=1.2)
+    conc_consistent = False
+    if h.mode == "conc" and h.use_defaults and abs(vsh - 0.1) < 1e-15:
+        # default plain-float point: build a front state that DOES conserve energy and momentum
+        # (w ahead = 1, p = w/mu - eps on both sides): v1 v2 = 1/(mu-1), v1/v2 = ((mu-1) w2 + 1)/((mu-1) + w2)
+        mu_ = float(t.mu)
+        ratio = ((mu_ - 1) * wsh + 1) / ((mu_ - 1) + wsh)
+        v1 = (ratio / (mu_ - 1)) ** 0.5
+        v2 = v1 / ratio
+        xsh = v1
+        vsh = (v1 - v2) / (1 - v1 * v2)
+        conc_consistent = True
     h.assume(lt(vsh, xsh))
     t.integratePlasma = lambda v0, vw_, wp, shockWave=True: types.SimpleNamespace(
         t=np.array([vsh], dtype=object if h.symbolic else float),
@@ -168,7 +179,9 @@ def h_shooting(h):
     if h.symbolic:
         h.prove("conservation across the shock front => shooting residual vanishes",
                 core.IMPLIES(AND(e_ok, m_ok), eq(res, 0)))
-    h.observe("res", res)
+    elif conc_consistent:
+        h.prove("conservation across the shock front => shooting residual vanishes", None,
+                conc=lambda: abs(res) <= 1e-9)
 
 
 AX = [axioms.pow_axioms, pow_inverse_axioms]
